@@ -271,7 +271,7 @@ func c15Expect(defect string, tag int, set quickfix.ValidatorSettings) c15Exp {
 			return acc
 		}
 		return rej(tag, 5)
-	case "group-count+1", "group-count-1":
+	case "group-count+1", "group-count-1", "group-count-zero":
 		if !set.RejectInvalidMessage {
 			return acc
 		}
@@ -393,7 +393,7 @@ func runC15(c *core.Ctx) {
 		c.EngineError(err.Error())
 		return
 	}
-	c.SetRule("for every message type of every shipped dictionary: conforming messages (required-only; plus each optional top-level field singly; plus each group with 1 and 2 entries) and every single-defect mutant (each required field removed; undefined tags <5000 and >=5000 at the body boundaries; each typed field with an ill-typed value; each enumerated field with a non-member; each group count +-1; group members swapped; header field in body; body field after a trailer field; each field duplicated; each value emptied; unknown MsgType), judged under all 32 combinations of validator settings")
+	c.SetRule("for every message type of every shipped dictionary: conforming messages (required-only; plus each optional top-level field singly; plus each group with 1 and 2 entries) and every single-defect mutant (each required field removed; undefined tags <5000 and >=5000 at the body boundaries; each typed field with an ill-typed value; each enumerated field with a non-member; each group count +-1 and 0 with entries following; group members swapped; every optional header field (enumerated ones with each value) conforming, ill-typed and out of enumeration; header field in body; body field after a trailer field; each field duplicated; each value emptied; unknown MsgType), judged under all 32 combinations of validator settings")
 	c.Assume("expected reason/tag per defect kind follow the FIX session reject reasons; where the pipeline legitimately reports an equally specific rule first the oracle is set-valued (ill-typed value of an enumerated field: 5 or 6; swapped group members: 15,16,1,2 or 13)",
 		"message types whose MsgType is not in the transport dictionary's enumeration are not conforming and are skipped", "XmlDataLen/XmlData and other LENGTH/DATA pairs are not used as optional singles")
 	settingsList := []int{}
@@ -499,6 +499,9 @@ func runC15(c *core.Ctx) {
 							down := append([]fixscan.Field{}, full...)
 							down[j].Value = "1"
 							emit("group-count-1", x.Tag, down, "")
+							zero := append([]fixscan.Field{}, full...)
+							zero[j].Value = "0"
+							emit("group-count-zero", x.Tag, zero, "")
 							// swap the first two members of the first entry when the entry has two scalar members
 							if j+2 < len(full) && len(x.Group) >= 2 && full[j+1].Tag == x.Group[0].Tag && full[j+2].Tag != x.Group[0].Tag && full[j+2].Tag != x.Tag {
 								isMember := false
@@ -520,6 +523,33 @@ func runC15(c *core.Ctx) {
 				}
 				if true {
 					emit("", 0, g.message(m.MsgType, g.body(m, &x, 1)), fmt.Sprintf("optional %d", x.Tag))
+				}
+			}
+			// optional header fields: every enumerated one with each of its values (all messages), every other
+			// one once (every 7th message); ill-typed and out-of-enumeration values of each
+			for _, h := range g.ts.Header.Top {
+				if h.IsGroup || g.ts.Header.Required[h.Tag] || h.Tag == 8 || h.Tag == 9 || h.Tag == 35 {
+					continue
+				}
+				hd := g.ts.FieldsByTag[h.Tag]
+				if hd == nil || hd.Type == "DATA" || hd.Type == "XMLDATA" || hd.Type == "LENGTH" {
+					continue
+				}
+				if len(hd.Enums) == 0 && msgCount%7 != 1 {
+					continue
+				}
+				nv := 1
+				if len(hd.Enums) > 1 && len(hd.Enums) <= 12 {
+					nv = len(hd.Enums)
+				}
+				for k := 0; k < nv; k++ {
+					emit("", 0, insertAt(base, hdrLen, fixscan.Field{Tag: h.Tag, Value: valueFor(hd, k)}), fmt.Sprintf("optional header %d=%s", h.Tag, valueFor(hd, k)))
+				}
+				if bad, ok := invalidFor(hd); ok {
+					emit("bad-type", h.Tag, insertAt(base, hdrLen, fixscan.Field{Tag: h.Tag, Value: bad}), "optional header")
+				}
+				if nm, ok := nonMember(hd); ok {
+					emit("bad-enum", h.Tag, insertAt(base, hdrLen, fixscan.Field{Tag: h.Tag, Value: nm}), "optional header")
 				}
 			}
 			// single-defect mutants of the required-only message
